@@ -310,3 +310,141 @@ def live_oracle(trial, info):
         return [('net-chain-no-progress', f"chain of {L}: after the {trial['mode']} continuation ({len(trial['stall'])} events) the sink's recv returned {new} above its prev_id {info['prev0']} "
                  f"(expected at least {trial['need']} new frame set(s))")]
     return []
+
+
+# ---------------------------------------------------------------------------------------------- liveness of a tee (OFProps/C06Star.lean)
+# Topology starTopo b: node 0 the source, nodes 1 .. b sinks subscribed to the source only.
+#   progress  schedule of C06_net_star_progress (6 b + 3 events, any clock reading), 1-3 repetitions
+#   fair      8 (or 16) random fair rounds of ALL nodes, any clock steps (C06_net_star_fair_heals)
+#   heal      a set `dead` of consumers makes no event any more: explicit schedule of C06_net_star_heals_explicit:
+#             recv 0, send 0 @t1, then the progress schedule of the live consumers at t2 = max(t1, every t_last in the REAL client table) + timeout + 1
+#   healfair  first phase: random events of the live nodes containing recv 0 ... send 0 (clock <= t1); then 8 (or 16) random fair rounds of the LIVE nodes
+#             at clock readings >= t2 (C06_net_star_heals_after_silence_flush)
+# The continuation is computed AFTER the prefix has run on the real objects (t2 is read off the real client table) and stored in the trial, so the
+# model runs the very same events.
+
+STAR_ROUNDS = 8
+
+
+def all_round(live, t):
+    evs = []
+    for j in live: evs += [{'k': 'send', 'i': j, 't': t}, {'k': 'recv', 'i': j}]
+    return evs
+
+
+def star_progress(live, t):
+    """`starProgressL b dead t` of OFProps/C06Star.lean (live = the consumers that are not silent, in order)"""
+    s0 = [{'k': 'send', 'i': 0, 't': t}]
+    return [{'k': 'recv', 'i': 0}] + all_round(live, t) + s0 + all_round(live, t) + s0 + all_round(live, t)
+
+
+def star_fair_rounds(rng, nodes, rounds, t0, steps):
+    """`rounds` rounds, each containing a recv and a send of every node in `nodes` at least once, random order / repetitions / clock steps"""
+    evs, t, ends = [], t0, []
+    for _ in range(rounds):
+        t += rng.choice(steps)
+        r = [{'k': 'recv', 'i': i} for i in nodes] + [{'k': 'send', 'i': i, 't': t} for i in nodes]
+        for _ in range(rng.randint(0, len(nodes))):
+            i = rng.choice(nodes)
+            r.append({'k': 'recv', 'i': i} if rng.random() < 0.5 else {'k': 'send', 'i': i, 't': t})
+        rng.shuffle(r)
+        evs += r
+        ends.append(len(evs))
+    return evs, ends
+
+
+def gen_star_trial(rng, mode=None):
+    mode = mode or rng.choice(['progress', 'fair', 'heal', 'heal', 'healfair', 'healfair'])
+    b = rng.choice([1, 2, 2, 3, 3, 4, 5] if mode in ('progress', 'fair') else [2, 2, 2, 3, 3, 4, 5, 1])
+    ups = [[]] + [[0] for _ in range(b)]
+    behs = [live_src(rng)] + [relay_any(rng, i) for i in range(1, b + 1)]
+    topo = {'family': 'star', 'ups': ups, 'behs': behs, 'victim': b}
+    pre, t = gen_prefix(rng, topo, gaps=rng.random() < 0.5)
+    dead = []
+    if mode in ('heal', 'healfair'):
+        k = rng.randint(1, b) if b == 1 or rng.random() < 0.15 else rng.randint(1, b - 1)      # sometimes EVERY consumer falls silent (nothing to check then)
+        dead = sorted(rng.sample(range(1, b + 1), k))
+    return {'topo': topo, 'prefix': pre, 'stall': None, 'mode': mode, 'dead': dead, 't0': t + rng.choice([0, 1, 100, 6000, 60000]),
+            'seed': rng.randrange(10**9), 'reps': rng.choice([1, 1, 2, 3]), 'rounds': rng.choice([STAR_ROUNDS, STAR_ROUNDS, 2 * STAR_ROUNDS])}
+
+
+def star_continuation(trial, rig):
+    """the continuation, computed from the REAL state after the prefix"""
+    import random
+    rng = random.Random(trial['seed'])
+    b = len(trial['topo']['ups']) - 1
+    live = [j for j in range(1, b + 1) if j not in trial['dead']]
+    t, mode = trial['t0'], trial['mode']
+    S = rig.nodes[0]['mq'].sender
+    if mode == 'progress':
+        cont = []
+        for _ in range(trial['reps']):
+            cont += star_progress(live, t); t += rng.choice([0, 100, 7000])
+        return cont, trial['reps'], None
+    if mode == 'fair':
+        evs, ends = star_fair_rounds(rng, list(range(b + 1)), trial['rounds'], t, [0, 1, 50, 100, 100, 2500, 6000])
+        return evs, trial['rounds'] // STAR_ROUNDS, ends
+    tl = max([c.t_last for c in S.clients.values()] + [t])          # every t_last the real sender remembers
+    if mode == 'heal':
+        t2 = max(tl, t) + CONN_TIMEOUT + 1 + rng.choice([0, 0, 1, 500])
+        return [{'k': 'recv', 'i': 0}, {'k': 'send', 'i': 0, 't': t}] + star_progress(live, t2), 1, None
+    # healfair: phase 1 (clock <= t): live events around `recv 0 ... send 0`; phase 2: fair rounds of the live nodes beyond the time-out
+    nodes = [0] + live
+    ph1 = []
+    for _ in range(rng.randint(0, 4)):
+        i = rng.choice(nodes); ph1.append({'k': 'recv', 'i': i} if rng.random() < 0.5 else {'k': 'send', 'i': i, 't': t})
+    ph1.append({'k': 'recv', 'i': 0})
+    for _ in range(rng.randint(0, 4)):
+        i = rng.choice(nodes); ph1.append({'k': 'recv', 'i': i} if rng.random() < 0.5 else {'k': 'send', 'i': i, 't': t})
+    ph1.append({'k': 'send', 'i': 0, 't': t})
+    for _ in range(rng.randint(0, 3)):
+        i = rng.choice(nodes); ph1.append({'k': 'recv', 'i': i} if rng.random() < 0.5 else {'k': 'send', 'i': i, 't': t})
+    t2 = max(tl, t) + CONN_TIMEOUT + 1
+    evs, ends = star_fair_rounds(rng, nodes, trial['rounds'], t2, [0, 0, 1, 50, 100, 100, 2500, 6000])
+    return ph1 + evs, trial['rounds'] // STAR_ROUNDS, [len(ph1) + e for e in ends]
+
+
+def run_star(trial):
+    """-> (per-event [(obs, snap)], info)   info: per consumer the ids its REAL recv returned during the continuation and its prev_id before it;
+    the number of events of the continuation after which every live consumer had a new set (exploration)"""
+    logging.disable(logging.CRITICAL)
+    topo = trial['topo']
+    b = len(topo['ups']) - 1
+    rig = netfeed.Rig(topo)
+    out = []
+    for idx, ev in enumerate(trial['prefix']):
+        o = rig.event(idx, ev)
+        out.append((o, rig.snap()))
+        if o['k'] == 'rcvd' and any(x['k'] == 'dup' for x in o['outs']):
+            rig.close()
+            trial['stall'] = trial['stall'] or []; trial['need'] = 0
+            return out, {'prev0': {}, 'returned': {}, 'done_at': None, 'rounds_needed': None}
+    if trial['stall'] is None:
+        trial['stall'], trial['need'], trial['round_ends'] = star_continuation(trial, rig)
+    prev0 = {j: rig.nodes[j]['mq'].receiver.prev_id for j in range(1, b + 1)}
+    rets = {j: [] for j in range(1, b + 1)}
+    live = [j for j in range(1, b + 1) if j not in trial['dead']]
+    done_at = None
+    npre = len(trial['prefix'])
+    for k, ev in enumerate(trial['stall']):
+        o = rig.event(npre + k, ev)
+        out.append((o, rig.snap()))
+        if o['k'] == 'rcvd' and any(x['k'] == 'dup' for x in o['outs']): break
+        if ev['k'] == 'recv' and ev['i'] >= 1 and o['k'] == 'rcvd' and o['id'] is not None: rets[ev['i']].append(o['id'])
+        if done_at is None and live and all(any(x > prev0[j] for x in rets[j]) for j in live): done_at = k + 1
+    rig.close()
+    ends = trial.get('round_ends')
+    rounds_needed = None if done_at is None or not ends else next((r + 1 for r, e in enumerate(ends) if e >= done_at), None)
+    return out, {'prev0': prev0, 'returned': rets, 'done_at': done_at, 'rounds_needed': rounds_needed}
+
+
+def star_oracle(trial, info):
+    b = len(trial['topo']['ups']) - 1
+    out = []
+    for j in range(1, b + 1):
+        if j in trial['dead'] or j not in info['prev0']: continue
+        new = [x for x in info['returned'][j] if x > info['prev0'][j]]
+        if len(new) < trial.get('need', 1):
+            out.append(('net-star-no-progress', f"tee of {b} consumers (silent: {trial['dead']}): after the {trial['mode']} continuation ({len(trial['stall'])} events) the recv of the live "
+                        f"consumer {j} returned {new} above its prev_id {info['prev0'][j]} (expected at least {trial.get('need', 1)} new frame set(s))"))
+    return out
